@@ -1,0 +1,48 @@
+//go:build verif
+// +build verif
+
+package engine
+
+// Contracts for the pool (consumed by /verif/govc; comment-only file).
+
+// lock discipline (C19): which lock protects which field, and the invariant each list lock protects (C17)
+//@ decl GenginePool.freeGengines guarded_by runningLock
+//@ decl GenginePool.additionGengines guarded_by additionLock
+//@ decl GenginePool.ruleBuilder guarded_by updateLock
+//@ decl GenginePool.clear guarded_by updateLock
+//@ decl GenginePool.execModel guarded_by updateLock
+//@ lockinv GenginePool.runningLock := listOK(self, self.freeGengines, false)
+//@ lockinv GenginePool.additionLock := listOK(self, self.additionGengines, true)
+
+// getGengine (C17): waits (never fails) until a list is non-empty, removes one wrapper from it and hands it
+// to the caller, who then owns it (ghost inlist == 0: it is in no list, so nobody else can obtain it).
+//@ func (*GenginePool).getGengine
+//@   props C17 C19 C09
+//@   entry nolocks
+//@   requires gp != nil
+//@   oncall (*sync.Mutex).Unlock
+//@     before inlist[gw] := 0
+//@   ensures [C17] neverfails: result.1 == nil
+//@   ensures [C17] owned: wrapperOK(gp, result.0) && gget(inlist, result.0) == 0
+//@   modifies gp.freeGengines, gp.additionGengines, GenginePool.freeGengines, GenginePool.additionGengines, gset(inlist, gp)
+//@   nopanic
+//@   loop 0 invariant nolock: !held(gp.getEngineLock) && !held(gp.runningLock) && !held(gp.additionLock)
+
+// putGengineLocked (C17): the caller hands back a wrapper it owns; a goroutine appends it to its list under the list lock
+//@ func (*GenginePool).putGengineLocked$1
+//@   props C17 C19 C09
+//@   task
+//@   entry nolocks
+//@   requires gp != nil && wrapperOK(gp, gw) && gget(inlist, gw) == 0
+//@   oncall (*sync.Mutex).Unlock
+//@     before inlist[gw] := 1
+//@   ensures [C17] returned: gget(inlist, gw) == 1
+//@   modifies GenginePool.freeGengines, GenginePool.additionGengines, gset(inlist, gw), elemsof(*gengineWrapper)
+//@   nopanic
+
+//@ func (*GenginePool).putGengineLocked
+//@   props C17 C19 C09
+//@   requires gp != nil && wrapperOK(gp, gw) && gget(inlist, gw) == 0
+//@   ensures [C17] returned: gget(inlist, gw) == 1
+//@   modifies GenginePool.freeGengines, GenginePool.additionGengines, gset(inlist, gw), elemsof(*gengineWrapper)
+//@   nopanic
